@@ -19,6 +19,25 @@ Theorem C06_cost_is_planner_cost : forall m k : Z, 1 <= m -> (1 <= k \/ m = 1 /\
 Proof. exact C3_C. Qed.
 Print Assumptions C06_cost_is_planner_cost.
 
+(* ... and that point is reached: within N (N + 3) + N + 2 requests the schedule is exhausted with exactly C N S forward steps executed *)
+Module M_C06_mixed_terminates.
+Import MixBridge.
+Theorem C06_mixed_terminates :
+  forall (N s : Z) (sg : Actions.storage) (tab : bool) (k : nat),
+         1 <= N ->
+         0 <= s ->
+         (2 <= N -> 1 <= s) ->
+         sg = Actions.RAM \/ sg = Actions.DISK ->
+         N * (N + 3) + N + 1 < Z.of_nat k ->
+         let
+         '(s', m, _) :=
+          Sched.run_ops (pmx N (Z.min s (N - 1)) sg) (sch0 N (Z.min s (N - 1)) sg tab) Sched.mon0
+            (repeat Sched.Next k) in
+          Sched.is_exhausted s' = true /\ Exec.fwd_total (Exec.cnt (Sched.mx m)) = C3 N (Z.min s (N - 1)).
+Proof. exact (@MixBridge.mixed_terminates). Qed.
+Print Assumptions C06_mixed_terminates.
+End M_C06_mixed_terminates.
+
 (*  *)
 Module M_C06_plan_1.
 Import MixDP.
